@@ -477,6 +477,12 @@ def concrete_call(c, rng, body_len, exhaustive_slot=None):
             v = rng.choice(["close", "upgrade", "Upgrade", "keep-alive", "v1"])
         elif h["n"] == "cl" and h["v"] == "plain":
             v = str(body_len)
+        elif h["n"] == "cl" and h["v"] in ("cr", "lf", "crlf_inject", "nul", "ctl") and rng.random() < 0.7:
+            # digits with the forbidden bytes around them (int() would strip CR / LF / VT / FF)
+            d = str(body_len)
+            v = {"cr": rng.choice([d + "\r", "\r" + d]), "lf": rng.choice([d + "\n", "\n" + d, d + "\n "]),
+                 "crlf_inject": rng.choice([d + "\r\n", "\r\n " + d, d + "\r\n\r\n", d + "\r\nX-Injected: yes"]),
+                 "nul": rng.choice([d + "\x00", "\x00" + d]), "ctl": rng.choice([d + "\x0b", "\x0c" + d, d + "\x1c"])}[h["v"]]
         elif h["n"] == "upgrade" and h["v"] == "plain":
             v = "websocket"
         else:
